@@ -41,3 +41,15 @@ Definition pick_proxy (secure : bool) (http https : option bytes) : option bytes
   | Some [] => None
   | o => o
   end.
+
+(* WebsocketSession._connect with a proxy configured: the CONNECT request goes to the proxy and the negotiation decides how
+   run() goes on -- like a direct connection over the tunnel, or like a failed connect (ProxyFail becomes ConnectFail);
+   while the proxy's answer is outstanding the session is still waiting *)
+Definition connect_via_proxy (script : list recv_res) : option connect_res :=
+  match negotiate script px_init with PxTunnel => Some CnOk | PxFail => Some CnSocketFail | PxBlocked => None end.
+
+Definition run_via_proxy (cf : cfg) (app : strategy) (c0 : conn) (script : list recv_res) (steps : list step) : conn :=
+  match connect_via_proxy script with
+  | Some cn => run cf app c0 cn steps
+  | None => emit TBlocked (fst (deliver app c0 EvConnecting))
+  end.
